@@ -969,6 +969,43 @@ func main() {
 			}
 		}
 	}
+	// ---- stream 1b'''': validly MACed packets whose egress interface id is ABSENT from the interface map, with and
+	// without router-alert flags: aims at the three d.interfaces[egress] dereferences behind validateEgressID
+	// (handleEgressRouterAlert, validateEgressUp, the Scope() test at the end of process()) — C08_egress_link_nonnil
+	{
+		nAbsent := run.Count(64, 2000)
+		for i := 0; i < nAbsent; i++ {
+			r := x.rng.Fork(uint64(180000 + i))
+			cf := x.cfgs[i%len(x.cfgs)]
+			sc := rtgen.GenValid(r, cf.rt.Cfg, x.now, vgen.Pick(r, "first-hop", "transit", "xover", "peer-out", "peer-in"))
+			d := sc.Desc
+			absent := func() uint16 {
+				for {
+					id := uint16(r.Range(1, 65535))
+					if cf.rt.Cfg.Iface(id) == nil {
+						return id
+					}
+				}
+			}
+			k := int(d.CurrHF)
+			if i%3 == 2 && k+1 < len(d.Hops) {
+				k++ // the hop after a cross-over
+			}
+			if k < len(d.Hops) {
+				if inf := int(d.InfIndexForHF(uint8(k))); inf < len(d.Infos) && d.Infos[inf].ConsDir {
+					d.Hops[k].ConsEgress = absent()
+				} else {
+					d.Hops[k].ConsIngress = absent()
+				}
+				if i%2 == 1 {
+					d.Hops[k].IngressAlert, d.Hops[k].EgressAlert = i%4 == 1, true
+				}
+			}
+			sc.Remac(cf.rt.Cfg)
+			sc.Mut = "egress-absent"
+			x.emitModel("egress-absent", cf, sc)
+		}
+	}
 	// ---- stream 1c: one-hop and empty paths
 	nOHP := run.Count(120, 6000)
 	for i := 0; i < nOHP; i++ {
